@@ -1,4 +1,4 @@
 SPECIFICATION SpecF
-CONSTANTS NSync=4 MaxClock=2 RetentionEnabled=TRUE Fine=FALSE Variant="asis"
+CONSTANTS NSync=4 MaxClock=2 RetentionEnabled=TRUE Fine=FALSE Variant="asis" Fixes={}
 INVARIANTS NoStall
 CHECK_DEADLOCK FALSE
